@@ -192,11 +192,13 @@ def unit_correspondence(ctx):
     if len(impl2) != len(uniq_out) or len(model2) != len(uniq_out):
         raise vlib.CheckFailure("C18: idempotence pass answered %d/%d of %d lines" % (len(impl2), len(model2), len(uniq_out)))
     again = {r: parse_canon(l) for r, l in zip(uniq_out, impl2)}
-    mism, nontrivial, clause_bad = 0, set(), 0
+    mism, nontrivial, clause_bad, proto_bad = 0, set(), 0, 0
     for i, s in enumerate(inputs):
         res = results[i]
         if isinstance(res, str):
-            ctx.violation("protocol:" + tok(s), "harness answered %r" % res, {"input_hex": tok(s)})
+            proto_bad += 1
+            if proto_bad <= 5:
+                ctx.violation("protocol:" + tok(s), "harness answered %r" % res, {"input_hex": tok(s)})
             continue
         if res is not None and res not in again:
             raise vlib.CheckFailure("C18: no second-pass answer for %r" % res)
@@ -229,7 +231,7 @@ def unit_correspondence(ctx):
                 ctx.violation("corr:" + tok(r), "correspondence broke on %r (impl=%s model=%s), second pass" % (r, a, b),
                               {"input_hex": tok(r), "correspondence": "harness/h_c18.c vs Driver/C18.lean"}, found_input=False)
     return {"evaluations": len(lines) + len(lines2), "nontrivial": len(nontrivial), "nexh": nexh, "ncorpus": ncorpus, "nrand": nrand,
-            "mism": mism, "clause_bad": clause_bad, "second_pass": len(lines2),
+            "mism": mism, "clause_bad": clause_bad + proto_bad, "second_pass": len(lines2),
             "samples": [{"input": repr(inputs[i]), "impl": impl[K * i], "model": model[K * i], "impl_memory": impl[K * i + 2][:80]} for i in
                         [ncorpus + 7, ncorpus + 333, ncorpus + 4242, len(inputs) - 1] if i < len(inputs)]}
 
